@@ -18,14 +18,14 @@ SchemasQuick ==
     S(<<"id", "enum">>,           <<2, 2>>,  <<"string">>),
     S(<<"enum", "bool", "string">>, <<2, 2, 2>>, <<>>) }
 
-(* thorough tier, cover mode: adds two-value schemas on compound keys and more positions *)
-SchemasThorough ==
-  SchemasQuick \cup
+(* thorough tier, cover mode: SchemasQuick again with MaxFacts = 4, and these with MaxFacts = 3
+   (more type positions, id/enum values, two strings) *)
+SchemasExtra ==
   { S(<<"bool", "id">>,           <<2, 3>>,  <<"int">>),
     S(<<"string", "string">>,     <<3, 3>>,  <<>>),
-    S(<<"int", "int">>,           <<2, 2>>,  <<"id", "enum">>),
-    S(<<"string", "enum", "int">>, <<2, 2, 2>>, <<"bool">>),
+    S(<<"int">>,                  <<2>>,     <<"id", "enum">>),
     S(<<"id", "string", "bool">>, <<2, 2, 2>>, <<>>) }
+SchemasThorough == SchemasQuick \cup SchemasExtra
 
 (* simulation: every key-type list of length 1..3 (all 155) with several value lists *)
 Types == {"int", "bool", "string", "id", "enum"}
@@ -42,6 +42,7 @@ SchemasAll ==
    (domain sizes x number of value fields), with all key types "int". *)
 Shape(s) == S([i \in 1..Len(s.kt) |-> "int"], s.kd, [i \in 1..Len(s.vt) |-> "int"])
 ShapesQuick == {Shape(s) : s \in SchemasQuick}
+ShapesThorough == {Shape(s) : s \in SchemasThorough}
 ShapesAll == {Shape(s) : s \in SchemasThorough \cup SchemasAll}
 
 (* Simulation (tlc -simulate): the same actions, but the arguments of each step are drawn
